@@ -14,7 +14,7 @@ def main():
     builders = reg.native_env.get("BUILDERS", {})
     bad = 0
     for fid, c in reg.contracts.items():
-        if flt not in fid or c.no_native or not c.module.startswith("pyxform"):
+        if flt not in fid or not native.searchable(c, reg.native_env.get("EXHAUSTIVE", {}).get(fid)):
             continue
         nc = native.NativeContract(c, reg, env)
         t0 = time.time()
